@@ -808,3 +808,40 @@ func (w *World) InstallRoots(cur, next *MintedRoot) {
 	}
 	w.Rec.Track("RootCertificates", nodeenrollment.RootsMessageId)
 }
+
+// RotateNodeCreds performs a complete, honest node credential rotation for an
+// enrolled actor: new credentials, rotation request encrypted under the current
+// shared key, server call, reply opened, new credentials stored as "current" in
+// the node's storage. The actor is updated to the new credentials.
+func (w *World) RotateNodeCreds(a *Actor) error {
+	old, err := types.LoadNodeCredentials(w.Ctx, a.Store, nodeenrollment.CurrentId, a.Opts...)
+	if err != nil {
+		return fmt.Errorf("load current credentials: %w", err)
+	}
+	nw, err := types.NewNodeCredentials(w.Ctx, a.Store, append(append([]nodeenrollment.Option(nil), a.Opts...), nodeenrollment.WithSkipStorage(true))...)
+	if err != nil {
+		return err
+	}
+	inner, err := nw.CreateFetchNodeCredentialsRequest(w.Ctx)
+	if err != nil {
+		return err
+	}
+	enc, err := nodeenrollment.EncryptMessage(w.Ctx, inner, old)
+	if err != nil {
+		return err
+	}
+	resp, err := rotation.RotateNodeCredentials(w.Ctx, w.Store, &types.RotateNodeCredentialsRequest{CertificatePublicKeyPkix: old.CertificatePublicKeyPkix, EncryptedFetchNodeCredentialsRequest: enc}, w.O()...)
+	if err != nil {
+		return fmt.Errorf("RotateNodeCredentials: %w", err)
+	}
+	innerResp := new(types.FetchNodeCredentialsResponse)
+	if err := nodeenrollment.DecryptMessage(w.Ctx, resp.EncryptedFetchNodeCredentialsResponse, old, innerResp); err != nil {
+		return fmt.Errorf("open rotation reply: %w", err)
+	}
+	if _, err := nw.HandleFetchNodeCredentialsResponse(w.Ctx, a.Store, innerResp, a.Opts...); err != nil {
+		return fmt.Errorf("handle rotated credentials: %w", err)
+	}
+	a.Creds = nw
+	a.fill()
+	return nil
+}
